@@ -1520,3 +1520,23 @@ E('C16', 'permit-comprehension', FIL, """            for key in list(data):
             return data""", """            for key in [k for k in list(data) if k not in args]:
                 del data[key]
             return data""", note='list comprehension is outside the fragment -> expect exit 2? kept to document the limit')
+
+# ----------------------------------------------------------------------------- deepening variants
+V('C01', 'xor-exactly-one', CB, "func=lambda inputs: bool(sum(1 for v in inputs if v) % 2),", "func=lambda inputs: sum(1 for v in inputs if v) == 1,", 'R01.12')
+V('C01', 'override-inverted', CB, "        return self._in.input if override == self._null else override", "        return override if override == self._null else self._in.input", 'R01.12')
+V('C01', 'compare-lt', CB, "        return self._in['_'][0] >= thr", "        return self._in['_'][0] > thr", 'R01.11')
+V('C01', 'compare-thresholds-swapped', CB, "            thr = self._low if self._output else self._high", "            thr = self._high if self._output else self._low", 'R01.11')
+V('C04', 'timer-not-restartable-start', 'edzed/blocklib/fsms.py', "        return self._restartable or self._state != 'on'", "        return self._restartable and self._state != 'on'", 'R04.10')
+V('C04', 'timer-period-full', 'edzed/blocklib/fsms.py', "            kwargs['t_on'] = kwargs['t_off'] = period / 2", "            kwargs['t_on'] = kwargs['t_off'] = period", 'R04.10')
+V('C04', 'inputexp-duration-default', S2, "            t_valid=duration,\n", "            t_expired=duration,\n", 'R04.10')
+V('C05', 'budget-per-task', SIM, """        start_time = get_time()
+        try:
+            for blk, task, timeout in sorted(btt_list, key=operator.itemgetter(2), reverse=True):
+                # sorted from longest timeout
+                if not task.done():""", """        try:
+            for blk, task, timeout in sorted(btt_list, key=operator.itemgetter(2), reverse=True):
+                # sorted from longest timeout
+                start_time = get_time()
+                if not task.done():""", 'R05.5')
+V('C07', 'bisect-right', CRON, "index = bisect.bisect_left(timetable, nowt) % tlen", "index = bisect.bisect_right(timetable, nowt) % tlen", 'R07.6')
+E('C05', 'budget-elapsed-form', SIM, "await asyncio.wait_for(task, timeout - get_time() + start_time)", "await asyncio.wait_for(task, timeout - (get_time() - start_time))")
